@@ -31,7 +31,7 @@ def gen(tier, rng, shard, nshards):
             node = W.gen_invertible(rng, depth, dt, n, False, leaf_kinds=KINDS + ["Dense"], comps=COMPS)
         if dt == "f8" and rng.random() < 0.2:
             node = intify(node, fn)  # integer-dtype Dense operands (cola's own docstrings build operators from integer arrays)
-        yield {"spec": node, "fn": fn}
+        yield {"spec": node, "fn": fn, "rebuilt": bool(rng.random() < 0.35)}
 
 
 def spread(node, ratio):
@@ -127,11 +127,18 @@ def _walk_ops(op, depth=0):
 ctx_top = {}
 
 
-def evaluate(ctx, node, fn):
+def evaluate(ctx, node, fn, rebuilt=False):
     from cola.linalg.decompositions.decompositions import cholesky, plu
+    A = None
+    if rebuilt:
+        # the operator was rebuilt (flatten / unflatten) from one that had already been factorized, and now holds other data
+        rb = B.rebuilt(node, prime=lambda S_: ctx.call(cholesky if fn == "cholesky" else plu, S_))
+        if rb is not None:
+            A, node = rb
+            ctx.count("provenance", "rebuilt-from-factorized-operator")
     ref = R.dense(node)
     n = ref.M.shape[0]
-    A = B.build(node)
+    A = B.build(node) if A is None else A
     cond = float(np.linalg.cond(ref.M))
     tol = 2e3 * ref.eps * max(cond, 1.0) * n * max(np.abs(ref.M).max(), 1.0)
     out = []
@@ -197,6 +204,9 @@ def run_case(ctx, case):
     ctx.count("fn", fn)
     ctx_top["node"] = node
     results = evaluate(ctx, node, fn)
+    if case.get("rebuilt") and all(k_ for _, k_, _ in results):
+        for oracle, ok, detail in evaluate(ctx, node, fn, rebuilt=True):
+            ctx.check(oracle + "[rebuilt-operator]", bool(ok), site=strip(node)["k"], preds={"fn": fn}, detail={"detail": detail, "spec": R.signature(node)})
     for oracle, ok, detail in results:
         if ok:
             ctx.check(oracle, True)
